@@ -69,7 +69,9 @@ class RouteScenario(explore.Scenario):
     def build(self):
         w = W()
         w.bw = fakes.BusWorld()
-        w.peers = [w.bw.connect() for _ in range(3)]
+        w.peers = [w.bw.connect(hello=i not in self.params.get('nohello',
+                                                               ()))
+                   for i in range(3)]
         w.uniq = [p.name for p in w.peers]
         w.alive = [True, True, True]
         w.names = c13.Model(3, [WELL])  # reference name table (see C13)
@@ -562,6 +564,11 @@ def run(ctx):
                          'rules': ()},
                         max_depth=7, max_dev=0,
                         label='three contenders for the name, depth 7')
+        explore.explore(ctx, RouteScenario,
+                        {'templates': [1, 5, 4], 'max_queue': 1,
+                         'senders': [0], 'waiters': True, 'nohello': (2,)},
+                        max_depth=5, max_dev=0,
+                        label='client 2 never says Hello, depth 5')
         explore.explore(ctx, NameScenario, {}, max_depth=5,
                         label='unique names, depth 5')
     else:
@@ -595,6 +602,12 @@ def run(ctx):
                          'rules': ()},
                         max_depth=8, max_dev=0,
                         label='three contenders for the name, depth 8',
+                        max_states=200000)
+        explore.explore(ctx, RouteScenario,
+                        {'templates': [1, 3, 5, 4], 'max_queue': 1,
+                         'senders': [0], 'waiters': True, 'nohello': (2,)},
+                        max_depth=7, max_dev=0,
+                        label='client 2 never says Hello, depth 7',
                         max_states=200000)
         explore.explore(ctx, NameScenario, {}, max_depth=7,
                         label='unique names, depth 7')
